@@ -361,6 +361,123 @@ func checkC08(w *World) {
 	w.numberForms(P, f)
 	w.ncNameStart(P)
 	w.buildExprVerbatim(P)
+	w.generatedFrontEnd(P, f)
+}
+
+// generatedFrontEnd (R08.11-R08.13): three places where the generated lexer/parser and the evaluator's use of the
+// parse forest decide whether "every valid expression is accepted, regardless of white space, and nothing else".
+func (w *World) generatedFrontEnd(P string, f *Facts) {
+	docRule(P, "R08.11", "T", "ExprWhitespace: the token-skipping loop of the lexer constructor skips with unicode.IsSpace, or with a predicate of the package that tests all of #x20, #x9, #xD and #xA (leaving out carriage return rejects expressions with CRLF line ends).")
+	docRule(P, "R08.12", "D", "whole input: the generated parser returns its BSR set without errors only under a positive (*bsr.Set).Contain(start symbol, 0, index of the last token): the start symbol has to span every token (any derivation of a prefix is not enough: `count(//a))` would be accepted with the rest ignored).")
+	docRule(P, "R08.13", "T who-may-call", "package exec reads the children of a parse node only through the accessors that tolerate an ambiguous forest (GetAllNTChildren, GetTChildI): it never calls BSR.GetNTChild / GetNTChildI, which panic when a child has more than one derivation (`a | f()`).")
+	// R08.11
+	if lp := w.SSA["grammar/lexer"]; lp != nil {
+		newFn := lp.Func("New")
+		if newFn == nil {
+			w.undecided(P, "R08.11", "lexer.New", 0, "not found")
+		} else {
+			ok, detail := false, "no skipping loop found: no call of a rune predicate on the input in a loop of lexer.New"
+			loops := loopBlocks(newFn)
+			allInstrs(newFn, func(in ssa.Instruction) {
+				c, isCall := in.(*ssa.Call)
+				if !isCall || !loops[c.Block()] || len(c.Call.Args) != 1 || staticCallee(c) == nil {
+					return
+				}
+				if b, isB := c.Type().Underlying().(*types.Basic); !isB || b.Kind() != types.Bool {
+					return
+				}
+				if b, isB := c.Call.Args[0].Type().Underlying().(*types.Basic); !isB || b.Kind() != types.Int32 {
+					return // a predicate over a rune of the input
+				}
+				sc := staticCallee(c)
+				if funcFullName(sc) == "unicode.IsSpace" {
+					ok, detail = true, "white space between tokens is skipped with unicode.IsSpace"
+					return
+				}
+				if inRepo(sc) {
+					seen := charsTested(sc)
+					all := seen[' '] && seen['\t'] && seen['\r'] && seen['\n']
+					ok = all
+					detail = fmt.Sprintf("white space between tokens is skipped with %s, which tests #x20: %v, #x9: %v, #xD: %v, #xA: %v", sc.Name(), seen[' '], seen['\t'], seen['\r'], seen['\n'])
+				}
+			})
+			w.check(P, "R08.11", "lexer: white space between tokens", newFn.Pos(), ok, detail)
+		}
+	} else {
+		w.undecided(P, "R08.11", "lexer", 0, "package grammar/lexer not loaded")
+	}
+	w.floor(P, "R08.11", 1)
+	// R08.12
+	if pp := w.SSA["grammar/parser"]; pp != nil {
+		var parse *ssa.Function
+		w.forAllFuncs("grammar/parser", func(fn *ssa.Function) {
+			if fn.Name() == "parse" && fn.Signature.Recv() != nil {
+				parse = fn
+			}
+		})
+		if parse == nil {
+			w.undecided(P, "R08.12", "generated parser", 0, "method parse not found")
+		} else {
+			n, good := 0, true
+			detail := ""
+			allInstrs(parse, func(in ssa.Instruction) {
+				ret, isRet := in.(*ssa.Return)
+				if !isRet || len(ret.Results) != 2 || !isNilConst(ret.Results[1]) || isNilConst(ret.Results[0]) {
+					return
+				}
+				n++
+				okc := false
+				for _, a := range guardAtoms(ret.Block()) {
+					c, isCall := a.V.(*ssa.Call)
+					if !isCall || !a.Pol || staticCallee(c) == nil || funcFullName(staticCallee(c)) != "(*"+modPath+"/grammar/parser/bsr.Set).Contain" || len(c.Call.Args) != 4 {
+						continue
+					}
+					nt, isNT := constInt(c.Call.Args[1])
+					left, isL := constInt(c.Call.Args[2])
+					startOK := isNT && int(nt) < len(f.NTNames) && f.NTNames[nt] == startSymbol
+					// right extent: len(tokens) - 1
+					rightOK := false
+					if bo, isBO := c.Call.Args[3].(*ssa.BinOp); isBO && bo.Op == token.SUB {
+						if k, isK := constInt(bo.Y); isK && k == 1 && isLenOf(bo.X, nil) {
+							rightOK = true
+						}
+					}
+					okc = startOK && isL && left == 0 && rightOK
+					detail = fmt.Sprintf("Contain(start symbol %s: %v, left extent 0: %v, right extent len(tokens)-1: %v)", startSymbol, startOK, isL && left == 0, rightOK)
+				}
+				if !okc {
+					good = false
+					if detail == "" {
+						detail = "the successful return at " + w.pos(ret.Pos()) + " is not guarded by bsrSet.Contain(start, 0, last token)"
+					}
+				}
+			})
+			w.check(P, "R08.12", "parser accepts only a derivation of the whole input", parse.Pos(), n > 0 && good, orElse(detail, "no successful return found"))
+		}
+	} else {
+		w.undecided(P, "R08.12", "generated parser", 0, "package grammar/parser not loaded")
+	}
+	w.floor(P, "R08.12", 1)
+	// R08.13
+	var bad []string
+	nf := 0
+	w.forAllFuncs("exec", func(fn *ssa.Function) {
+		nf++
+		allInstrs(fn, func(in ssa.Instruction) {
+			c, ok := in.(ssa.CallInstruction)
+			if !ok || c.Common().StaticCallee() == nil {
+				return
+			}
+			switch funcFullName(c.Common().StaticCallee()) {
+			case "(" + modPath + "/grammar/parser/bsr.BSR).GetNTChildI", "(" + modPath + "/grammar/parser/bsr.BSR).GetNTChild",
+				"(" + modPath + "/grammar/parser/bsr.BSR).GetNTChildrenI", "(" + modPath + "/grammar/parser/bsr.BSR).GetNTChildren":
+				bad = append(bad, fmt.Sprintf("%s in %s", w.pos(in.Pos()), fn.Name()))
+			}
+		})
+	})
+	sort.Strings(bad)
+	w.check(P, "R08.13", "package exec: no panicking child accessor", 0, len(bad) == 0 && nf > 0, fmt.Sprintf("%d functions scanned; calls of BSR.GetNTChild/GetNTChildI (panic on an ambiguous child): %s", nf, orElse(strings.Join(bad, "; "), "none")))
+	w.floor(P, "R08.13", 1)
 }
 
 // buildExprVerbatim (R08.10): what is compiled is the caller's text. The public BuildExpr/MustBuildExpr hand their
